@@ -173,7 +173,7 @@ func DumpIDL(ast *parser.Thrift) (string, error) {
 					}
 					sb.writeString(fmt.Sprintf("%d: %s%s %s", th.ID, required, typeName(th.Type), th.Name))
 					printAnnotation(&sb, th.Annotations)
-					if i != len(f.Arguments)-1 {
+					if i != len(f.Throws)-1 {
 						sb.writeString(", ")
 					}
 				}
